@@ -175,6 +175,20 @@ CHECKS = {
                 "no request may be indicated to a server application twice while unanswered.",
         "note": "forged frames with a live (peer, invoke id) pair are indistinguishable from genuine ones and are not injected",
     },
+    "C10": {
+        "level": "exploration",
+        "design_ref": "DESIGN.md 3 C10",
+        "technique": "runtime monitor: mutation/garbage injection into a real device stack; independent decoder classifies each injected frame, counting oracle over replies keyed by (sender, invoke id), residue census, differential read-back",
+        "text": "A real device application with ReadProperty, WriteProperty, ReadPropertyMultiple, SubscribeCOV, "
+                "DeviceCommunicationControl and Who-Is services receives valid frames built with independent encoders, "
+                "every single-octet substitution, truncation and insertion of them, and random octets at frame, NPDU "
+                "and APDU-parameter level, in batches handed over with core.deferred() like the UDP director does, "
+                "guarded by valid requests before and after.  For every frame the independent decoder classifies as a "
+                "well-framed unsegmented confirmed request exactly one reply with its invoke id must appear on the LAN; "
+                "at quiescence no transaction object or transaction timer may be left; a subsequent ReadProperty must "
+                "return the object's actual value.",
+        "note": "VLAN device (no BVLL under it); replies are unsegmented in this workload; after an effective DeviceCommunicationControl-disable the batch's later expectations are void",
+    },
 }
 
 NOT_APPLICABLE = {pid: _PENDING for pid in ("C%02d" % i for i in range(1, 21)) if pid not in CHECKS}
